@@ -7,6 +7,9 @@ def plan(tier):
     conds = osm_conds("h_connected", tier, "H13-connected", timeout=1200)
     conds.append(Cond("vf.h.h_osm", "h_snap", case=0, timeout=300, label="H13-snap[graph 0]", weight=3))
     conds.append(Cond("vf.h.h_osm", "h_snap", case=16, timeout=300, label="H13-snap[graph 1]", weight=3))
+    conds.append(Cond("vf.h.h_osm", "h_snap", case=32, timeout=300, label="H13-snap[graph 2: parallel edges]", weight=3))
+    for p in range(4):
+        conds.append(Cond("vf.h.h_osm", "h_connected", case=32 + p, timeout=1200, env={"VF_SPEEDS": tier}, label=f"H13-connected[graph=2,pair={p}]", weight=10))
     conds.append(Cond("vf.h.h_osm", "h_hav", case=0, timeout=300, label="H13-haversine", weight=3))
     return {
         "conds": conds,
